@@ -75,8 +75,8 @@ ASSUMPTIONS = [
 BOUNDS = {
     "quick": {
         "a": "depth 1-2 complete over 129 node shapes x 5 positions; 4 filter-call argument kinds at depth 1",
-        "b": "blocks <=2 statements depth <=2; 26 literal forms in every single hole; 15 margins x 4 positions (LF, code on the next line) "
-             "+ first-line/CRLF/TAB-unit variants at 3 margins",
+        "b": "blocks <=2 statements depth <=2 over 11 of the 14 statement kinds (90 skeletons); 16 of the 26 literal forms in every single hole; 27 layouts: 15 margins "
+             "(LF, code on the next line, <% %> in the body) + 2 margins x 3 other positions + 6 first-line/CRLF/TAB-unit variants",
         "c": "31 expression binders x 20 positions, 41 statement binders x 4 positions, 10 control-line binders; inside and outside reads; every free name removed",
     },
     "thorough": {
@@ -194,10 +194,10 @@ def a_template(E, positions, q):
             page.append("pa19=%s" % E)
             lines.append("P=${N19(pa19)}\n")
         elif p == "D":
-            head.append("<%%def name=%sdflt19(a19=%s)%s>${N19(a19)}</%%def>" % (q, E, q))
+            head.append("<%%def name=%sdflt19(b19=1, a19=%s)%s>${N19(a19)}</%%def>" % (q, E, q))
             lines.append("D=${dflt19()}\n")
         elif p == "K":
-            head.append("<%%def name=%skwd19(*, a19=%s)%s>${N19(a19)}</%%def>" % (q, E, q))
+            head.append("<%%def name=%skwd19(*, b19=1, a19=%s, c19=2)%s>${N19(a19)}</%%def>" % (q, E, q))
             lines.append("K=${kwd19()}\n")
         elif p == "B":
             # rendered in place a block takes its arguments from the page arguments; its own default applies when
@@ -239,6 +239,9 @@ def _norm_dump(node):
     return d.replace("Name(id='Ellipsis', ctx=Load())", "Constant(value=Ellipsis)")
 
 
+_AUX = {"b19": ast.dump(ast.Constant(1)), "c19": ast.dump(ast.Constant(2))}  # the neighbouring defaults of positions D and K
+
+
 def a_extract(code):
     """position -> list of re-emitted ast nodes found in the generated module"""
     mod = ast.parse(code)
@@ -251,9 +254,13 @@ def a_extract(code):
             for arg, d in zip(pa[len(pa) - len(a.defaults):], a.defaults):
                 if pos and arg.arg == ("pa19" if pos == "P" else "a19"):
                     found.setdefault(pos, []).append(d)
+                elif pos and arg.arg in _AUX:
+                    found.setdefault(pos + "~aux", []).append((arg.arg, ast.dump(d)))
             for arg, d in zip(a.kwonlyargs, a.kw_defaults):
                 if d is not None and arg.arg == "a19" and pos and pos != "P":
                     found.setdefault(pos, []).append(d)
+                elif pos and arg.arg in _AUX:
+                    found.setdefault(pos + "~aux", []).append((arg.arg, d is not None and ast.dump(d)))
         elif isinstance(node, ast.Call) and isinstance(node.func, ast.Name) and node.func.id == "G19":
             found.setdefault("F*", []).append(node)
     return found
@@ -325,6 +332,9 @@ def a_run(E, ref, positions, st_counts):
             for n in got:
                 if _norm_dump(n) != refdump:
                     fails[p] = ("meaning", "re-emitted default parses to a different tree: %s" % ast.unparse(n)[:160])
+            for nme, dmp in found.get(p + "~aux", []):
+                if dmp != _AUX[nme] and p not in fails:
+                    fails[p] = ("meaning", "the default of the neighbouring argument %s changed: %s" % (nme, dmp))
     # value oracle
     if stage == "ok":
         outs = {}
@@ -348,6 +358,30 @@ def a_native_raw(text, env):
         return "val", eval(compile(text, "<c19>", "eval"), dict(env))
     except Exception as e:  # noqa
         return "exc", exc_class(e)
+
+
+_BIG = str(10**20)
+
+
+def a_feasible(E):
+    """`3 ** 10**20` never finishes (one uninterruptible C call): such texts are probed in a forked child and left out"""
+    if _BIG not in E or ("**" not in E and "<<" not in E):
+        return True
+    import signal
+
+    pid = os.fork()
+    if pid == 0:
+        try:
+            signal.signal(signal.SIGALRM, signal.SIG_DFL)
+            signal.alarm(2)
+            try:
+                EV.N19(eval(compile(E, "<c19>", "eval"), dict(_state["env"])))
+            except BaseException:  # noqa
+                pass
+        finally:
+            os._exit(0)
+    _, status = os.waitpid(pid, 0)
+    return status == 0
 
 
 def a_positions(E):
@@ -449,6 +483,9 @@ def a_case(path, node, st, seed, dedupe, shard=None):
     if E in dedupe:
         return
     dedupe.add(E)
+    if not a_feasible(E):
+        st.extra["a_skipped_unbounded_arithmetic"] = st.extra.get("a_skipped_unbounded_arithmetic", 0) + 1
+        return
     S = _state
     cnt = S.setdefault("cnt", {"evaluations": 0})
     fails = a_check(E, ref, path)
@@ -713,9 +750,19 @@ def layouts(tier, level):
     raise AssertionError(level)
 
 
-def form_assignments(nholes, mode):
+# literal forms left to the thorough tier (each has a close relative in the quick set)
+QUICK_SKIP = {
+    "dq-in-sq", "raw-string-backslash", "escaped-quote", "two-triples-one-line", "empty-triple", "four-quotes",
+    "multiline-triple-sq", "multiline-triple-with-hash", "comment-with-triple-dq", "triple-sq-chars-in-dq-string",
+}
+
+
+QUICK_SKIP_KINDS = {"call0", "tryraise", "if"}
+
+
+def form_assignments(nholes, mode, tier="thorough"):
     """mode 'single': all plain + one special form in one hole; 'pairs': two special forms in two holes"""
-    names = [f[0] for f in BL.FORMS]
+    names = [f[0] for f in BL.FORMS if tier != "quick" or f[0] not in QUICK_SKIP]
     if mode == "single":
         yield ["plain"] * nholes
         for h in range(nholes):
@@ -763,6 +810,8 @@ def run_b(job, st):
     S = setup(job["seed"])
     counts = {"lex": 0, "compile": 0, "shared": 0}
     sk = list(BL.skeletons(job["n"], job["d"]))
+    if job["tier"] == "quick":  # statement kinds left to the thorough tier (each has a close relative in the quick set)
+        sk = [b for b in sk if not (set(_kinds(b)) & QUICK_SKIP_KINDS)]
     if job.get("min_n"):
         small = set(BL.skeletons(job["min_n"][0], job["min_n"][1]))
         sk = [b for b in sk if b not in small]
@@ -771,7 +820,7 @@ def run_b(job, st):
         if idx % job["nshards"] != job["shard"]:
             continue
         nh = BL.count_holes(block)
-        for forms in form_assignments(nh, job["forms"]):
+        for forms in form_assignments(nh, job["forms"], job["tier"]):
             lines = BL.physical_lines(block, forms)
             try:
                 expected = b_native(lines)
